@@ -23,51 +23,64 @@ def timeTlv (c : X509.Civil) : Bytes :=
   let t := X509.encodeVaried c
   tlv (match t.1 with | .utc => tagUtcTime | .generalized => tagGenTime) t.2
 
-/-- one family of the IP resources extension -/
-def ipFamilyEnc (afi : Bytes) : Claim → Bytes
-  | .missing => []
-  | .inherit => tlv tagSeq (tlv tagOctetString afi ++ tlv tagNull [])
-  | .blocks c => tlv tagSeq (tlv tagOctetString afi ++ IpDer.encodeBlocks c)
+/-- the content of one IPAddressFamily SEQUENCE (`encode_family`), none for a missing family -/
+def famBody (afi : Bytes) : Claim → Option Bytes
+  | .missing => none
+  | .inherit => some (tlv tagOctetString afi ++ tlv tagNull [])
+  | .blocks c => some (tlv tagOctetString afi ++ IpDer.encodeBlocks c)
 
-def accessDescription (oid : Bytes) : Option Bytes → Bytes
-  | some u => tlv tagSeq (tlv tagOid oid ++ gn u)
-  | none => []
+/-- the contents of the IPAddressFamily SEQUENCEs: IPv4 first -/
+def ipItems (v4 v6 : Claim) : List Bytes := (famBody [0, 1] v4).toList ++ (famBody [0, 2] v6).toList
+
+/-- the content of one AccessDescription SEQUENCE -/
+def adBody (oid u : Bytes) : Bytes := tlv tagOid oid ++ gn u
+
+/-- the contents of the AccessDescription SEQUENCEs of the SIA, in the order `encode_ref` writes them -/
+def siaItems (s : Sia) : List Bytes :=
+  (s.caRepository.toList.map (adBody oidAdCaRepository)) ++ (s.rpkiManifest.toList.map (adBody oidAdRpkiManifest)) ++
+  (s.signedObject.toList.map (adBody oidAdSignedObject)) ++ (s.rpkiNotify.toList.map (adBody oidAdRpkiNotify))
+
+/-- the concatenated encodings of a list of SEQUENCE contents -/
+def seqs (items : List Bytes) : Bytes := ((items.map (tlv tagSeq)).flatten)
+
+def bcBody (ca : Bool) : Bytes :=
+  extBody oidBasicConstraints true (tlv tagSeq (if ca then tlv tagBool [255] else []))
+def skiBody (k : Bytes) : Bytes := extBody oidSubjectKeyId false (tlv tagOctetString k)
+def akiBody (k : Bytes) : Bytes := extBody oidAuthorityKeyId false (tlv tagSeq (tlv 0x80 k))
+/-- `KeyUsage::encode` -/
+def kuValue : KeyUsage → Bytes
+  | .ca => tlv tagBitString [1, 6]
+  | .ee => tlv tagBitString [7, 128]
+def kuBody (ku : KeyUsage) : Bytes := extBody oidKeyUsage true (kuValue ku)
+def ekuBody (content : Bytes) : Bytes := extBody oidExtKeyUsage false (tlv tagSeq content)
+def crlBody (u : Bytes) : Bytes :=
+  extBody oidCrlDistributionPoints false (tlv tagSeq (tlv tagSeq (tlv 0xA0 (tlv 0xA0 (gn u)))))
+def aiaBody (u : Bytes) : Bytes :=
+  extBody oidAuthorityInfoAccess false (tlv tagSeq (tlv tagSeq (tlv tagOid oidAdCaIssuers ++ gn u)))
+def siaBody (s : Sia) : Bytes := extBody oidSubjectInfoAccess false (tlv tagSeq (seqs (siaItems s)))
+def cpBody (trim : Bool) : Bytes :=
+  extBody oidCertificatePolicies true (tlv tagSeq (tlv tagSeq (tlv tagOid (if trim then oidCpResourcesV2 else oidCpResources))))
+def ipBody (trim : Bool) (v4 v6 : Claim) : Bytes :=
+  extBody (if trim then oidIpAddrBlockV2 else oidIpAddrBlock) true (tlv tagSeq (seqs (ipItems v4 v6)))
+def asBody (trim : Bool) (asn : Claim) : Bytes :=
+  extBody (if trim then oidAsIdsV2 else oidAsIds) true (AsDer.encodeExt asn)
+
+def siaPresent (s : Sia) : Bool :=
+  s.caRepository.isSome || s.rpkiManifest.isSome || s.signedObject.isSome || s.rpkiNotify.isSome
 
 /-- the contents of the Extension SEQUENCEs `encode_ref` writes, in its order -/
 def extItems (d : Decoded) : List Bytes :=
-  (match d.basicCa with
-    | some ca => [extBody oidBasicConstraints true (tlv tagSeq (if ca then tlv tagBool [255] else []))]
-    | none => []) ++
-  [extBody oidSubjectKeyId false (tlv tagOctetString d.ski)] ++
-  (match d.aki with
-    | some k => [extBody oidAuthorityKeyId false (tlv tagSeq (tlv 0x80 k))]
-    | none => []) ++
-  [extBody oidKeyUsage true (match d.keyUsage with
-    | .ca => tlv tagBitString [1, 6]
-    | .ee => tlv tagBitString [7, 128])] ++
-  (match d.eku with
-    | some _ => [extBody oidExtKeyUsage false (tlv tagSeq d.ekuContent)]
-    | none => []) ++
-  (match d.crlUri with
-    | some u => [extBody oidCrlDistributionPoints false (tlv tagSeq (tlv tagSeq (tlv 0xA0 (tlv 0xA0 (gn u)))))]
-    | none => []) ++
-  (match d.caIssuer with
-    | some u => [extBody oidAuthorityInfoAccess false (tlv tagSeq (tlv tagSeq (tlv tagOid oidAdCaIssuers ++ gn u)))]
-    | none => []) ++
-  (if d.sia.caRepository.isSome ∨ d.sia.rpkiManifest.isSome ∨ d.sia.signedObject.isSome ∨ d.sia.rpkiNotify.isSome then
-    [extBody oidSubjectInfoAccess false (tlv tagSeq (
-      accessDescription oidAdCaRepository d.sia.caRepository ++ accessDescription oidAdRpkiManifest d.sia.rpkiManifest ++
-      accessDescription oidAdSignedObject d.sia.signedObject ++ accessDescription oidAdRpkiNotify d.sia.rpkiNotify))]
-   else []) ++
-  [extBody oidCertificatePolicies true
-    (tlv tagSeq (tlv tagSeq (tlv tagOid (if d.trim then oidCpResourcesV2 else oidCpResources))))] ++
-  (if Cert.isPresent d.v4 ∨ Cert.isPresent d.v6 then
-    [extBody (if d.trim then oidIpAddrBlockV2 else oidIpAddrBlock) true
-      (tlv tagSeq (ipFamilyEnc [0, 1] d.v4 ++ ipFamilyEnc [0, 2] d.v6))]
-   else []) ++
-  (if Cert.isPresent d.asn then
-    [extBody (if d.trim then oidAsIdsV2 else oidAsIds) true (AsDer.encodeExt d.asn)]
-   else [])
+  (d.basicCa.map bcBody).toList ++
+  [skiBody d.ski] ++
+  (d.aki.map akiBody).toList ++
+  [kuBody d.keyUsage] ++
+  (d.eku.map fun _ => ekuBody d.ekuContent).toList ++
+  (d.crlUri.map crlBody).toList ++
+  (d.caIssuer.map aiaBody).toList ++
+  (if siaPresent d.sia then [siaBody d.sia] else []) ++
+  [cpBody d.trim] ++
+  (if Cert.isPresent d.v4 || Cert.isPresent d.v6 then [ipBody d.trim d.v4 d.v6] else []) ++
+  (if Cert.isPresent d.asn then [asBody d.trim d.asn] else [])
 
 /-- the AlgorithmIdentifier `x509_encode` always writes: with the NULL parameter -/
 def sigAlgEnc : Bytes := tlv tagSeq (tlv tagOid oidSha256WithRsa ++ tlv tagNull [])
@@ -89,6 +102,6 @@ def encodeTbs (d : Decoded) : Bytes :=
     tlv tagSeq (timeTlv d.notBefore ++ timeTlv d.notAfter) ++
     d.subject ++
     publicKeyEnc d.keyAlg d.keyUnused d.keyBits ++
-    tlv 0xA3 (tlv tagSeq (((extItems d).map (tlv tagSeq)).flatten)))
+    tlv 0xA3 (tlv tagSeq (seqs (extItems d))))
 
 end Rpki.CertEnc
